@@ -43,10 +43,32 @@ Definition check_shared (c : list (nat * Z) * list (nat * Z)) : bool :=
   | None => false
   end.
 
+(* case kind 2: lifecycle script as observed around graph.StartAll/ShutdownAll (and the extensions'
+   twin): (i, 100) Start of node i begins | (i, s<8) node i reports s through its host |
+   (i, 101) Start returned nil | (i, 102) Start returned an error | (i, 103) Shutdown begins |
+   (i, 104) Shutdown returned nil | (i, 105) Shutdown returned an error *)
+Definition lcop_of (p : nat * Z) : option lc_op :=
+  let i := fst p in
+  if Z.eqb (snd p) 100 then Some (LcStartBegin i) else
+  if Z.eqb (snd p) 101 then Some (LcStartOk i) else
+  if Z.eqb (snd p) 102 then Some (LcStartErr i) else
+  if Z.eqb (snd p) 103 then Some (LcStopBegin i) else
+  if Z.eqb (snd p) 104 then Some (LcStopOk i) else
+  if Z.eqb (snd p) 105 then Some (LcStopErr i) else
+  option_map (LcReport i) (status_of_Z (snd p)).
+
+Definition check_lifecycle (c : list (nat * Z) * list (nat * Z)) : bool :=
+  let '(os, obs) := c in
+  match map_opt lcop_of os with
+  | Some os' => list_eqb pairNZ_eqb (evZ (lc_events os')) obs
+  | None => false
+  end.
+
 Definition check_case (c : nat * (list (nat * Z) * list (nat * Z))) : bool :=
   match fst c with
   | 0 => check_reporter (snd c)
-  | _ => check_shared (snd c)
+  | 1 => check_shared (snd c)
+  | _ => check_lifecycle (snd c)
   end.
 
 (* model outputs, for replay files *)
@@ -54,5 +76,6 @@ Definition model_out (c : nat * (list (nat * Z) * list (nat * Z))) : option (lis
   match fst c with
   | 0 => option_map (fun ls' => evZ (snd (rep_run [] ls')))
            (map_opt (fun p => option_map (fun r => (fst p, r)) (rep_of_Z (snd p))) (fst (snd c)))
-  | _ => option_map (fun os' => repZ (sc_run shared0 os')) (map_opt scop_of (fst (snd c)))
+  | 1 => option_map (fun os' => repZ (sc_run shared0 os')) (map_opt scop_of (fst (snd c)))
+  | _ => option_map (fun os' => evZ (lc_events os')) (map_opt lcop_of (fst (snd c)))
   end.
